@@ -165,13 +165,6 @@ Definition names_of (db : dbv) (n : str) : list str :=
   flat_map (fun s => flat_map (fun d => match d with (n', v, _) => if str_eqb n n' then [v] else [] end)
                               (st_decl s)) db.
 
-(* no version file lists a flavor twice: the versions of one product and flavor in one stack are
-   distinct *)
-Fixpoint nodup_str (l : list str) : bool :=
-  match l with [] => true | x :: r => negb (mem_str x r) && nodup_str r end.
-Definition distinct_versions (db : dbv) (n f : str) : bool :=
-  forallb (fun s => nodup_str (versions_in s n f)) db.
-
 (* the comparator is a total order on a set of names: comparing equal means being the same name,
    swapping the arguments flips the answer, and not-greater is transitive *)
 Definition total_order_on (vcmp : str -> str -> comparison) (l : list str) : Prop :=
